@@ -37,6 +37,12 @@ def history(ctx, rng, M, n_runs, CFG=CFG, CMDS=CMDS, wide=False):
                 targets = rng.sample([t["path"] for t in CFG["targets"]], rng.randint(1, 3))
                 args += ["-t"] + targets
                 if rng.random() < 0.5: args.append("--deps")
+            # a guided run that finds nothing to do (a checkpoint exists and nothing changed since): it completes, prints a document with
+            # no targets, and is the latest run from then on
+            empty_guided = (not wide) and rng.random() < 0.12
+            if empty_guided:
+                args = ["-c"] + cmds; targets = None
+                vlib.monorail(rr.repo, "checkpoint", "update", "--pending"); ctx.count("empty_guided_run")
             rr.script = {"*": {}}
             if rng.random() < 0.3:
                 rr.script["%s|%s" % (rng.choice(cmds), rng.choice([t["path"] for t in CFG["targets"]]))] = {"exit": rng.randint(1, 255)}
@@ -49,7 +55,7 @@ def history(ctx, rng, M, n_runs, CFG=CFG, CMDS=CMDS, wide=False):
                 ctx.count("aborted_invocation")
             overlapped = None
             spare = [c for c in CMDS if c not in cmds]
-            if spare and rng.random() < 0.3:
+            if spare and rng.random() < 0.3 and not empty_guided:
                 # while this run is executing, another `run` (a quick one, other command) is attempted on the same repository: it is
                 # not one of the completed runs r1..rk, and the history must come out exactly as if it had never been tried
                 for c in cmds:
@@ -82,7 +88,8 @@ def history(ctx, rng, M, n_runs, CFG=CFG, CMDS=CMDS, wide=False):
                     overlapped = {"intruder_rc": pb.returncode}; ctx.count("overlapping_invocation")
             else:
                 rc, out, err, raw = rr.run(*args)
-            case = {"M": M, "step": n, "args": args, "script": rr.script, "wide": wide}
+            if empty_guided: vlib.monorail(rr.repo, "checkpoint", "delete")
+            case = {"M": M, "step": n, "args": args, "script": rr.script, "wide": wide, "empty_guided": empty_guided}
             if out is None:
                 ctx.record(case, True, False, False, False, detail={"what": "run produced no result document", "rc": rc, "err": err})
                 return
